@@ -2,7 +2,8 @@
 # usage: eval_seeded.sh <Cxx> <out dir with m1..mN> <worktree>
 # For every mutation: confirm it independently, run the property's check against it, store it under seeded/.
 pid=$1; out=$2; wt=$3; pre=${4:-}
-cd /verif
+V=$(cd "$(dirname "$0")/.." && pwd)
+cd "$V"
 for d in "$out"/m*; do
   m=$(basename "$d")
   tags=$(python3 -c "import json;print(json.load(open('$d/meta.json')).get('tags',''))")
@@ -16,7 +17,7 @@ for d in "$out"/m*; do
   python3 - "$pid" "$m" "$conf" "$res" <<'PY'
 import json,sys
 pid,m,conf,res=sys.argv[1:5]
-p=f"/verif/seeded/{pid}-{m}/meta.json"; d=json.load(open(p))
+p=f"seeded/{pid}-{m}/meta.json"; d=json.load(open(p))
 d["confirmed_by_coordinator"]=conf
 d["check_result"]=res
 d["detected"]=("VIOLATION" in res)
